@@ -15,6 +15,14 @@ def _const_hash(value):
     return 0
 
 
+def _len_repr(value):
+    # repr() in rename_literals is only used for its length (cost model); the real one realises a symbolic string.
+    # Model: a string prints as quote + characters + quote (escapes ignored: stated in the evidence).
+    if isinstance(value, str):
+        return "'" + value + "'"
+    return repr(value)
+
+
 def _role(field):
     # `import foo` -> `import foo as A` moves the bound identifier from alias.name to alias.asname
     return 'alias' if field in ('asname',) else field
@@ -66,7 +74,8 @@ def run_pipeline(tree, rename_locals=True, rename_globals=False, hoist_literals=
     if stub_builtins:
         # hash() in rename_literals: a constant is a valid hash for any __eq__; the real one makes CrossHair hand a
         # symbolic int to HoistedValue.__hash__ ("proxy intolerance")
-        with builtins_stubbed(), pipeline(tree, capture=cap), patched(mod('python_minifier.rename.rename_literals'), 'hash', _const_hash):
+        rl_mod = mod('python_minifier.rename.rename_literals')
+        with builtins_stubbed(), pipeline(tree, capture=cap), patched(rl_mod, 'hash', _const_hash), patched(rl_mod, 'repr', _len_repr):
             python_minifier.minify('', **opts)
     else:
         with pipeline(tree, capture=cap):
